@@ -514,10 +514,10 @@ def run(ck):
     ck.log((out.strip() or err.strip())[-300:])
     translator_ok = rc == 0
     if translator_ok:
-        proof_ok, failing = ck.proof_stage('MpVerif.C04.Props', 'MpVerif/C04/Props.lean', 'C04_', ['MpVerif/C04/*.lean', 'MpVerif/Gen/ValCvt.lean'], expect_min=42)
+        proof_ok, failing = ck.proof_stage('MpVerif.C04.Props', 'MpVerif/C04/Props.lean', 'C04_', ['MpVerif/C04/*.lean', 'MpVerif/Gen/ValCvt.lean'], expect_min=49)
     else:
         proof_ok, failing = False, ['translator: ' + (out + err).strip()[-400:]]
-        ck.cov.update({'obligations': 42, 'discharged': 0, 'checker_cmd': 'translators/gen_valcvt.py failed: a construct of the anchored code is no longer understood'})
+        ck.cov.update({'obligations': 49, 'discharged': 0, 'checker_cmd': 'translators/gen_valcvt.py failed: a construct of the anchored code is no longer understood'})
     ck.log('proof stage: ok=%s failing=%s' % (proof_ok, failing[:8]))
     if ck.tier == 'thorough' and proof_ok:
         bad = ck.leanchecker(['MpVerif.C04.Props'])
@@ -910,6 +910,8 @@ def model_replay(ck, drv, cases, st):
         loaded_post = [nid('dest_vars()'), nid('dest_objs()')] + [i for nm, i in ids.items() if nm.startswith('dest_cons(') and i is not None]
         loaded_pre = [nid('src_vars()'), nid('src_objs()'), nid('src_cons()')]
         # symbolic origins (all kinds) of every original variable and constraint, both directions
+        ops.append('wf2 %d %s' % (len(loaded_post), ' '.join(map(str, loaded_post))))
+        plan.append((c, 'wf2', None))
         c.trace_plan = []
         ncon_src = dict((nm, s) for nm, s in c.lg['nodes']).get('src_cons()', 0)
         for k in ('sol', 'basis', 'iis', 'generic', 'lazy'):
@@ -943,7 +945,7 @@ def model_replay(ck, drv, cases, st):
     opf = os.path.join(BUILD, 'c04', 'ops.txt')
     open(opf, 'w').write('\n'.join(ops) + '\n')
     with open(opf) as fi:
-        p = subprocess.run([drv], stdin=fi, capture_output=True, text=True)
+        p = subprocess.run([drv], stdin=fi, capture_output=True, text=True, timeout=1800)     # run() kills the driver on timeout
     outl = p.stdout.split('\n')
     if p.returncode != 0 or len(outl) < len(ops):
         raise RuntimeError('lean driver failed: rc=%s, %d/%d lines; %s' % (p.returncode, len(outl), len(ops), p.stderr[-500:]))
@@ -962,6 +964,8 @@ def model_replay(ck, drv, cases, st):
             c.bad_ops.append(str(payload)[:200])
         if what == 'wf':
             c.model_wf = line
+        elif what == 'wf2':
+            c.model_wf2 = line
         elif what == 'trace':
             c.traces[payload] = line[6:] if line.startswith('trace ') else line
         elif what == 'flow':
@@ -1005,7 +1009,7 @@ def model_replay_shared(ck, drv, cases, st):
     opf = os.path.join(BUILD, 'c04', 'ops_shared.txt')
     open(opf, 'w').write('\n'.join(ops) + '\n')
     with open(opf) as fi:
-        p = subprocess.run([drv], stdin=fi, capture_output=True, text=True)
+        p = subprocess.run([drv], stdin=fi, capture_output=True, text=True, timeout=1800)
     outl = p.stdout.split('\n')
     if p.returncode != 0 or len(outl) < len(ops):
         raise RuntimeError('lean driver failed (shared): rc=%s %s' % (p.returncode, p.stderr[-300:]))
@@ -1735,6 +1739,9 @@ def verdicts(ck, cases, st, proof_ok, failing):
         if c.bad_ops:
             ck.add_violation('driver:bad-op', 'the Lean driver rejected an operation: %s' % c.bad_ops[0], replay_obj(c), found_input=False)
             continue
+        if getattr(c, 'model_wf2', None) != 'wf2 1 1':
+            ck.add_violation('wf2:' + str(getattr(c, 'model_wf2', None)), 'on the real graph: every node of every entry registered / traceWF (hypotheses of C04_history_independent_registered and C04_built_certificates_exist, established by the modelled constructors): %s' % getattr(c, 'model_wf2', None),
+                             replay_obj(c), found_input=False)
         if c.model_wf != 'wf 1 1':
             ck.add_violation('wf:' + str(c.model_wf), 'well-formedness hypotheses (inBounds, wfVars) of the theorems fail on the real graph: %s' % c.model_wf,
                              replay_obj(c), found_input=False)
